@@ -20,6 +20,7 @@ import (
 	"github.com/tonkeeper/tongo/boc"
 	"github.com/tonkeeper/tongo/tlb"
 	"github.com/tonkeeper/tongo/ton"
+	"github.com/tonkeeper/tongo/wallet"
 
 	"verifharness/bridge"
 	"verifharness/mon"
@@ -1149,6 +1150,183 @@ func sectionVmStack() {
 	}
 }
 
+// ---------------------------------------------------------------- wallet v5 value types
+
+// out_list_empty$_ = OutList 0;
+// out_list$_ {n:#} prev:^(OutList n) action:OutAction = OutList (n + 1);
+// action_send_msg#0ec3c86d mode:(## 8) out_msg:^(MessageRelaxed Any) = OutAction;
+type w5act struct {
+	mode uint8
+	msg  *cell.Cell
+}
+
+func refOutList(a []w5act) *cell.Cell {
+	if len(a) == 0 {
+		return cell.New(nil, false)
+	}
+	return cell.New(cat(rb.UintBits(0x0ec3c86d, 32), rb.UintBits(uint64(a[0].mode), 8)), false, refOutList(a[1:]), a[0].msg)
+}
+
+// action_list_extended$_ {m:#} {n:#} action:ExtendedAction prev:^(ActionList n m) = ActionList n (m+1);
+// action_add_ext#02 addr:MsgAddressInt = ExtendedAction; action_delete_ext#03 addr:MsgAddressInt = ExtendedAction;
+// action_set_signature_auth_allowed#04 allowed:(## 1) = ExtendedAction;
+// (the last extended action of the list has no further reference)
+type w5ext struct {
+	kind    int // 2 add 3 delete 4 set-signature-allowed
+	addr    addr
+	allowed bool
+}
+
+func (e w5ext) bits() []bool {
+	if e.kind == 4 {
+		return cat(rb.UintBits(4, 8), []bool{e.allowed})
+	}
+	return cat(rb.UintBits(uint64(e.kind), 8), e.addr.ref())
+}
+
+func refExtList(e []w5ext) ([]bool, []*cell.Cell) {
+	if len(e) == 1 {
+		return e[0].bits(), nil
+	}
+	b, r := refExtList(e[1:])
+	return e[0].bits(), []*cell.Cell{cell.New(b, false, r...)}
+}
+
+func (e w5ext) tongo() wallet.W5ExtendedAction {
+	switch e.kind {
+	case 2:
+		return wallet.W5ExtendedAction{SumType: "AddExtension", AddExtension: &struct{ Addr tlb.MsgAddress }{e.addr.tongo()}}
+	case 3:
+		return wallet.W5ExtendedAction{SumType: "RemoveExtension", RemoveExtension: &struct{ Addr tlb.MsgAddress }{e.addr.tongo()}}
+	}
+	return wallet.W5ExtendedAction{SumType: "SetSignatureAllowed", SetSignatureAllowed: &struct{ Allowed bool }{e.allowed}}
+}
+
+// signed_request$_ wallet_id:(## 32) valid_until:(## 32) msg_seqno:(## 32) inner:InnerRequest signature:bits512 = SignedRequest;
+// internal_signed#73696e74 signed:SignedRequest = InternalMsgBody; external_signed#7369676e signed:SignedRequest = ExternalMsgBody;
+// internal_extension#6578746e query_id:(## 64) inner:InnerRequest = InternalMsgBody;
+// actions$_ out_actions:(Maybe OutList) has_other_actions:(## 1) {m:#} {n:#} other_actions:(ActionList n m) = InnerRequest;
+// v5 beta: (magic) wallet_id:(## 80) valid_until:(## 32) msg_seqno:(## 32) op:(## 1) signature:bits512 actions:^OutList
+func sectionWalletV5() {
+	n := R.N(600, 60000)
+	for k := 0; k < n; k++ {
+		rng := R.Rng("w5", k)
+		cnt := mon.Pick(rng, []int{0, 1, 2, 3, 3, 4, 5, 10, rng.Intn(9)})
+		if R.Thorough() && rng.Chance(1, 200) {
+			cnt = 255
+		}
+		acts := make([]w5act, cnt)
+		var tacts wallet.W5Actions
+		for i := range acts {
+			acts[i] = w5act{mode: uint8(rng.Uint64()), msg: genCell(rng, 1)}
+			if i > 0 && rng.Chance(1, 8) {
+				acts[i] = acts[rng.Intn(i)] // a repeated action now and then
+			}
+			tc := tongoCell(acts[i].msg)
+			tacts = append(tacts, wallet.W5SendMessageAction{Mode: acts[i].mode, Msg: &tc})
+		}
+		wit := map[string]any{"case": k, "actions": cnt}
+		R.Eval(fmt.Sprintf("w5actions/%d/%d", cnt, k))
+		R.Seen("w5_action_counts", fmt.Sprint(cnt))
+		expect("W5Actions", marshal("W5Actions", tacts, wit), refOutList(acts), wit)
+		// extended actions: 0 (absent) .. 3
+		exts := make([]w5ext, rng.Intn(4))
+		var texts wallet.W5ExtendedActions
+		for i := range exts {
+			exts[i] = w5ext{kind: 2 + rng.Intn(3), addr: genAddr(rng, 2), allowed: rng.Bool()}
+			texts = append(texts, exts[i].tongo())
+		}
+		if len(exts) > 0 {
+			eb, er := refExtList(exts)
+			R.Eval(fmt.Sprintf("w5ext/%d/%d", len(exts), k))
+			expect("W5ExtendedActions", marshal("W5ExtendedActions", texts, wit), cell.New(eb, false, er...), wit)
+		}
+		// inner request
+		withActs := rng.Chance(3, 4)
+		inner := []bool{withActs}
+		var innerRefs []*cell.Cell
+		var pa *wallet.W5Actions
+		if withActs {
+			pa = &tacts
+			innerRefs = append(innerRefs, refOutList(acts))
+		}
+		var pe *wallet.W5ExtendedActions
+		if len(exts) > 0 {
+			pe = &texts
+			eb, er := refExtList(exts)
+			inner = cat(inner, []bool{true}, eb)
+			innerRefs = append(innerRefs, er...)
+		} else {
+			inner = append(inner, false)
+		}
+		wid, until, seqno, qid := uint32(rng.Uint64()), uint32(rng.Uint64()), uint32(rng.Uint64()), rng.Uint64()
+		var sig tlb.Bits512
+		copy(sig[:], rng.Bytes(64))
+		signed := cat(rb.UintBits(uint64(wid), 32), rb.UintBits(uint64(until), 32), rb.UintBits(uint64(seqno), 32), inner, rb.BytesBits(sig[:]))
+		var m5 wallet.MessageV5
+		var want *cell.Cell
+		kind := rng.Intn(3)
+		switch kind {
+		case 0:
+			m5.SumType = "SignedInternal"
+			m5.SignedInternal = &struct {
+				WalletId        uint32
+				ValidUntil      uint32
+				Seqno           uint32
+				Actions         *wallet.W5Actions         `tlb:"maybe^"`
+				ExtendedActions *wallet.W5ExtendedActions `tlb:"maybe"`
+				Signature       tlb.Bits512
+			}{wid, until, seqno, pa, pe, sig}
+			want = cell.New(cat(rb.UintBits(0x73696e74, 32), signed), false, innerRefs...)
+		case 1:
+			m5.SumType = "SignedExternal"
+			m5.SignedExternal = &struct {
+				WalletId        uint32
+				ValidUntil      uint32
+				Seqno           uint32
+				Actions         *wallet.W5Actions         `tlb:"maybe^"`
+				ExtendedActions *wallet.W5ExtendedActions `tlb:"maybe"`
+				Signature       tlb.Bits512
+			}{wid, until, seqno, pa, pe, sig}
+			want = cell.New(cat(rb.UintBits(0x7369676e, 32), signed), false, innerRefs...)
+		default:
+			m5.SumType = "ExtensionAction"
+			m5.ExtensionAction = &struct {
+				QueryID         uint64
+				Actions         *wallet.W5Actions         `tlb:"maybe^"`
+				ExtendedActions *wallet.W5ExtendedActions `tlb:"maybe"`
+			}{qid, pa, pe}
+			want = cell.New(cat(rb.UintBits(0x6578746e, 32), rb.UintBits(qid, 64), inner), false, innerRefs...)
+		}
+		if len(want.Bits) <= 1023 {
+			w5 := map[string]any{"case": k, "constructor": string(m5.SumType), "actions": cnt, "with_actions": withActs, "extended": len(exts)}
+			R.Eval(fmt.Sprintf("messagev5/%d/%d/%v/%d/%d", kind, cnt, withActs, len(exts), k))
+			R.Seen("w5_message_shapes", fmt.Sprintf("%s/actions=%v/extended=%v", m5.SumType, withActs, len(exts) > 0))
+			expect("MessageV5", marshal("MessageV5", m5, w5), want, w5)
+		}
+		// v5 beta
+		var wid80 tlb.Bits80
+		copy(wid80[:], rng.Bytes(10))
+		op := rng.Bool()
+		beta := cat(rb.BytesBits(wid80[:]), rb.UintBits(uint64(until), 32), rb.UintBits(uint64(seqno), 32), []bool{op}, rb.BytesBits(sig[:]))
+		var mb wallet.MessageV5Beta
+		magic := uint64(0x7369676e)
+		if rng.Bool() {
+			mb.SumType = "SignedInternal"
+			magic = 0x73696e74
+			mb.SignedInternal.WalletId, mb.SignedInternal.ValidUntil, mb.SignedInternal.Seqno = wid80, until, seqno
+			mb.SignedInternal.Op, mb.SignedInternal.Signature, mb.SignedInternal.Actions = op, sig, tacts
+		} else {
+			mb.SumType = "SignedExternal"
+			mb.SignedExternal.WalletId, mb.SignedExternal.ValidUntil, mb.SignedExternal.Seqno = wid80, until, seqno
+			mb.SignedExternal.Op, mb.SignedExternal.Signature, mb.SignedExternal.Actions = op, sig, tacts
+		}
+		wb := map[string]any{"case": k, "constructor": string(mb.SumType), "actions": cnt}
+		R.Eval(fmt.Sprintf("messagev5beta/%s/%d/%d", mb.SumType, cnt, k))
+		expect("MessageV5Beta", marshal("MessageV5Beta", mb, wb), cell.New(cat(rb.UintBits(magic, 32), beta), false, refOutList(acts)), wb)
+	}
+}
+
 // ---------------------------------------------------------------- (3) real data
 
 // unique reports whether re-encoding the decoded value is determined by the
@@ -1357,16 +1535,17 @@ func main() {
 		tier = os.Args[1]
 	}
 	R = mon.Start("C04", tier)
-	R.Rule = "(1) every UintN/IntN/VarUIntegerN/BitsN type of the registry at its boundary values, Go integer kinds, Unary, Magic tags (# and $), the first bits of every tagged struct and of every constructor of every reflectively encoded union, Maybe/Either/EitherRef/Ref and the ^/maybe/maybe^ field tags, compared bit by bit with an independent bit-list encoder; (2) MsgAddress (4 kinds, anycast), Grams, CurrencyCollection, CommonMsgInfo (3 kinds), StateInit, Message (init none/inline/ref x body inline/ref) and ton.CreateExternalMessage over random values against reference encoders transcribed from block.tlb (bits and refs, recursively); SimpleLib, Account (none/uninit/active/frozen) and ShardAccount; where the schema has ^Cell (state-init code/data, SimpleLib root, vm_stk_cell/builder) a third of the cells are exotic (library, Merkle proof/update, pruned branch) and a quarter of the referenced message bodies are library cells: the reference must point to that very cell (type compared, and the representation hash against the reference model when no pruned branch is involved); VM stacks also built with Put (bottom value first), stack slices covering a part of their cell (decoded from a reference encoding, re-encoded, and VmCellSlice.Cell() against the sub-slice), Int257FromInt64 / VarUInteger16FromInt64 at int64 boundaries; (3) every transaction and message of the real blocks (tlb/testdata and ton/testdata/raw-13516764.bin) re-encoded and compared by hash with its source cell wherever the encoding is unique (no non-empty dictionary, no unimplemented encoder), and once more after every cell of the decoded record has been read in place (32 bits, one reference); non-trivial = an encoding that was compared; distinct = distinct (structure, shape, value/case)"
+	R.Rule = "(1) every UintN/IntN/VarUIntegerN/BitsN type of the registry at its boundary values, Go integer kinds, Unary, Magic tags (# and $), the first bits of every tagged struct and of every constructor of every reflectively encoded union, Maybe/Either/EitherRef/Ref and the ^/maybe/maybe^ field tags, compared bit by bit with an independent bit-list encoder; (2) MsgAddress (4 kinds, anycast), Grams, CurrencyCollection, CommonMsgInfo (3 kinds), StateInit, Message (init none/inline/ref x body inline/ref) and ton.CreateExternalMessage over random values against reference encoders transcribed from block.tlb (bits and refs, recursively); SimpleLib, Account (none/uninit/active/frozen) and ShardAccount; where the schema has ^Cell (state-init code/data, SimpleLib root, vm_stk_cell/builder) a third of the cells are exotic (library, Merkle proof/update, pruned branch) and a quarter of the referenced message bodies are library cells: the reference must point to that very cell (type compared, and the representation hash against the reference model when no pruned branch is involved); VM stacks also built with Put (bottom value first), stack slices covering a part of their cell (decoded from a reference encoding, re-encoded, and VmCellSlice.Cell() against the sub-slice), Int257FromInt64 / VarUInteger16FromInt64 at int64 boundaries; the wallet-v5 value types W5Actions (0..10 actions, 255 at the thorough tier, distinct modes and messages), W5ExtendedActions, MessageV5 (3 constructors x actions present/absent x extended actions) and MessageV5Beta against a transcription of the wallet-v5 schema; (3) every transaction and message of the real blocks (tlb/testdata and ton/testdata/raw-13516764.bin) re-encoded and compared by hash with its source cell wherever the encoding is unique (no non-empty dictionary, no unimplemented encoder), and once more after every cell of the decoded record has been read in place (32 bits, one reference); non-trivial = an encoding that was compared; distinct = distinct (structure, shape, value/case)"
 	R.Assume("reference encoders in props/c04 are literal transcriptions of the block.tlb constructors quoted above them; dictionaries are kept empty in (2) because label forms are a free choice")
 	R.Assume("source-cell hashes of real records are the ones tongo reports (Transaction.Hash, Message.Hash(false)); that they equal the reference hash of a cell of the block is C16's business")
 	R.Assume("exotic cells are handed to tongo as in-memory cells (boc.NewCellExotic) with ordinary children; a pruned branch below a built cell is compared structurally only, because cells built in memory carry no level mask (hash and level of such trees are C02's business)")
 	R.Assume("reading a cell of a decoded value in place (ReadUint, NextRef) moves cursors but is not a change of the TL-B value")
-	R.Assume("wallet bodies (v3/v4/v5/highload) are checked bit-level by C14's reference decoder/verifier, not repeated here")
+	R.Assume("wallet bodies as built by the wallet API (v3/v4/v5/highload, signatures) are checked bit-level by C14's reference decoder/verifier; here the v5 value types (W5Actions, W5ExtendedActions, MessageV5, MessageV5Beta) are encoded with tlb.Marshal and compared with a transcription of the wallet-v5 schema; a Go action list names the actions from the outermost OutList cell inwards (what the decoder returns and C14's reference reads)")
 	sectionPrimitives()
 	sectionCombinators()
 	sectionStructures()
 	sectionVmStack()
+	sectionWalletV5()
 	sectionReal()
 	R.Sample(map[string]any{"kind": "Message", "example": "int_msg_info$0 + addr_std with anycast + init as ^StateInit + inline body: bits and refs equal the reference transcription"})
 	os.Exit(R.Finish())
